@@ -138,6 +138,8 @@ type client struct {
 	sideCancel func()
 }
 
+const staleCancelClass = "C14:stale-cancel-removes-reused-handler"
+
 func dynString(s string) []byte { return ref.EncodeDyn(ref.Dyn{T: ref.Scalar(ref.KString), V: s}) }
 
 func setup(nclients int) (*netkit.Env, *probe.Bomb, uint32, []*client, func(), error) {
@@ -290,6 +292,7 @@ func checkCase(c Case) error {
 			}
 		}
 	}
+	staleCancelAt := -1
 	model2 := int32(10)
 	accepted2 := func(v int32) {
 		model2 = v
@@ -390,9 +393,11 @@ func checkCase(c Case) error {
 			if err != nil {
 				return vt.Violationf("C14:subscribe-error", "step %d: SubscribeDelay on the second object failed: %v", i, err)
 			}
+			drained := make(chan struct{})
 			go func() {
 				for range ch2 {
 				}
+				close(drained)
 			}()
 			if err := cl.removeTwin(); err != nil {
 				return vt.Violationf("C14:setup", "step %d: removing the second object: %v", i, err)
@@ -409,7 +414,23 @@ func checkCase(c Case) error {
 			ns := &subscriber{ch: ch, cancel: cancel}
 			go ns.run()
 			cl.subs = append(cl.subs, ns)
+			if vt.Known(staleCancelClass) {
+				// the listed finding: the goroutine of a subscription which the
+				// server has ended may not have noticed yet when cancel is called;
+				// it then picks at random between "ended" and "cancelled" and in the
+				// second case removes the handler slot by number, which may be the
+				// newcomer's or a pending call's. Excluded by construction: the
+				// cancel function is only called once the dead subscription's
+				// channel has been closed (its goroutine is gone).
+				select {
+				case <-drained:
+				case <-time.After(bound):
+					return vt.Violationf("C14:event-missing", "step %d: the channel of a subscription whose object was removed is still open after %v", i, bound)
+				}
+				vt.Excluded(staleCancelClass)
+			}
 			cancel2()
+			staleCancelAt = i
 			vt.Label("second-object-removed")
 			vt.Label("cancel-after-object-removed-and-new-subscription")
 		case "stalecancel2":
@@ -581,6 +602,9 @@ func checkCase(c Case) error {
 		// after every step: the register holds the model value, with the declared type
 		v, err := clients[0].proxy.GetDelay()
 		if err != nil {
+			if staleCancelAt == i {
+				return vt.Violationf(staleCancelClass, "after step %d (%s): the cancel function of a subscription which the server had ended was called while a new subscription and this call were under way, and GetDelay failed: %v", i, op.Kind, err)
+			}
 			return vt.Violationf("C14:get-error", "after step %d (%s %s): GetDelay failed: %v", i, op.Kind, op.Desc, err)
 		}
 		if v != model {
